@@ -257,6 +257,35 @@ def library_fluid_one_property(rng, lib):
     return net
 
 
+def sector_net(rng, sector):
+    """net created with a non-default sector (component list / tables / std types of that sector only)"""
+    import pandapipes as pp
+    from pandapipes.pandapipes_net import Sector
+    sec = Sector(sector)
+    fluid = {"heat": "water", "water": "water", "gas": "lgas", "None": "water"}[sector]
+    net = pp.create_empty_network("sector " + sector, fluid=fluid, sector=sec)
+    if sector == "heat":
+        j = [pp.create_junction(net, 6.0, 350.0) for _ in range(4)]
+        pp.create_circ_pump_const_pressure(net, j[3], j[0], 6.0, 1.0, t_flow_k=355.0)
+        pp.create_pipe_from_parameters(net, j[0], j[1], 0.3, 100.0, u_w_per_m2k=1.0, text_k=283.0)
+        pp.create_heat_consumer(net, j[1], j[2], qext_w=15000.0, controlled_mdot_kg_per_s=0.3)
+        pp.create_pipe_from_parameters(net, j[2], j[3], 0.3, 100.0, u_w_per_m2k=1.0, text_k=283.0)
+    else:
+        p0 = 1.0 if sector == "gas" else 5.0
+        j = [pp.create_junction(net, p0, 293.0) for _ in range(3)]
+        pp.create_ext_grid(net, j[0], p0, 293.0)
+        pp.create_pipe_from_parameters(net, j[0], j[1], 0.4, 100.0)
+        pp.create_pipe_from_parameters(net, j[1], j[2], 0.4, 100.0)
+        pp.create_sink(net, j[2], 0.01 if sector == "gas" else 0.5)
+    return net
+
+
+def sector_empty(rng, sector):
+    import pandapipes as pp
+    from pandapipes.pandapipes_net import Sector
+    return pp.create_empty_network("empty " + sector, sector=Sector(sector))
+
+
 def failed_run(rng):
     """a net whose last pipeflow did not converge (converged flag False) and a default-created mass storage"""
     import pandapipes as pp
@@ -278,6 +307,10 @@ BUILDERS = [("all_components_water", lambda r: all_components(r, "water")),
             ("heat_net", heat_net), ("mass_pump_net", mass_pump_net), ("odd_cells", odd_cells),
             ("custom_fluid", custom_fluid), ("custom_gas", custom_gas), ("with_controller", with_controller),
             ("failed_run", failed_run), ("empty_net", empty_net),
+            ("sector_heat", lambda r: sector_net(r, "heat")), ("sector_gas", lambda r: sector_net(r, "gas")),
+            ("sector_water", lambda r: sector_net(r, "water")), ("sector_none", lambda r: sector_net(r, "None")),
+            ("sector_empty_heat", lambda r: sector_empty(r, "heat")), ("sector_empty_gas", lambda r: sector_empty(r, "gas")),
+            ("sector_empty_water", lambda r: sector_empty(r, "water")), ("sector_empty_none", lambda r: sector_empty(r, "None")),
             ("pump_types_deg1", lambda r: custom_pump_types(r, 1)), ("pump_types_deg3", lambda r: custom_pump_types(r, 3)),
             ("pump_types_deg4", lambda r: custom_pump_types(r, 4)),
             ("libfluid_overwritten_water", lambda r: library_fluid_overwritten(r, "water")),
